@@ -110,6 +110,23 @@ class Runner(object):
         self.crash = None
         self.had_key = {}       # (account, index of the incoming event) -> held a sender key of that sender then
 
+    def chains_of(self, acct):
+        """the sender-key chains account `acct` holds for OTHER senders, read from its sender_keys table (read-only):
+        [pairkey(group, sender), iteration of the chain in use = the record's first state, number of states]"""
+        from axolotl.groups.state.senderkeyrecord import SenderKeyRecord
+        rec = self.w.observer
+        out = []
+        for gid, sid, blob in rec._db(acct, "SELECT group_id, sender_id, record FROM sender_keys"):
+            snd = self.w.by_jid.get(ws.jid_of(str(sid)))
+            if snd is None or snd is acct:
+                continue
+            r = SenderKeyRecord(serialized=bytes(blob))
+            if r.isEmpty():
+                continue
+            out.append([rec.peer(gid) * 1000000 + snd.idx,
+                        r.senderKeyStates[0].getSenderChainKey().getIteration(), len(r.senderKeyStates)])
+        return sorted(out)
+
     def target_jid(self, t):
         if isinstance(t, str):
             return self.groups[int(t[1:])]
@@ -143,7 +160,11 @@ class Runner(object):
                     # for this group when the stanza arrived?  (sender_keys table, read-only; anchor state of C03)
                     self.had_key[(d.dst.idx, len(w.observer.events[d.dst.idx]))] = \
                         w.observer.has_senderkey(d.dst, d.meta["group"], w.accounts[d.meta["sender"]].phone)
+                at = (d.dst.idx, len(w.observer.events[d.dst.idx])) if w.observer is not None else None
                 w.deliver(act[1])
+                if at is not None and d.dst.stack is not None and d.kind == "message" and \
+                        at[1] < len(w.observer.events[at[0]]):
+                    w.observer.events[at[0]][at[1]]["sk_after"] = self.chains_of(d.dst)
         elif k == "dup":
             if act[1] < len(w.pending) and w.pending[act[1]].kind == "message":
                 w.duplicate(act[1])
@@ -169,11 +190,48 @@ def generate_actions(ctx_rng, case, runner):
         runner.do(a)
 
     late = bool(case.get("late_dup"))     # the copy made by a `dup` is HELD: delivered after everything else
+    hold_burst = bool(case.get("hold_burst"))   # the later stanzas of a burst are HELD across the retry exchange
+
+    def release_served():
+        """a held burst stanza is released once its addressee has been shown the message that was corrupted"""
+        rec = runner.w.observer
+        for d in runner.w.pending:
+            h = d.meta.get("hold")
+            if h and any(ev["tag"] == "deliver" and ev["id"] == h[1] for ev in rec.events[h[0]]):
+                d.meta["hold"] = None
+
+    def burst_fault():
+        """corrupt a sender-key-only group stanza that has LATER siblings queued (same sender, group, addressee)
+        and hold those siblings back"""
+        nonlocal fault_budget
+        pend = runner.w.pending
+        cands = []
+        for i in runner.w.messages_pending():
+            d = pend[i]
+            if d.meta.get("group") and is_bare_skmsg_node(d.node) and not _held(d) and not d.meta.get("corrupt"):
+                sib = [e for e in pend if e is not d and e.kind == "message" and e.dst is d.dst and
+                       e.meta.get("group") == d.meta["group"] and e.meta.get("sender") == d.meta["sender"] and
+                       e.serial > d.serial and e.node["participant"] == d.node["participant"] and
+                       is_bare_skmsg_node(e.node)]
+                if sib:
+                    cands.append((i, sib))
+        if not cands:
+            return False
+        i, sib = rng.choice(cands)
+        fault_budget -= 1
+        mid = _mid_of(pend[i])
+        for e in sib:
+            e.meta["hold"] = (pend[i].dst.idx, mid)
+        step(["corrupt", i, 0])
+        return True
 
     def maybe_fault():
         nonlocal fault_budget
         mp = runner.w.messages_pending()
         if fault_budget > 0 and mp and rng.random() < case.get("fault_p", .25):
+            if hold_burst:
+                burst_fault()
+                return
             if late:
                 # prefer a group stanza that carries only a sender-key ciphertext (its addressee has to ask)
                 bare = [i for i in mp if is_bare_skmsg_node(runner.w.pending[i].node)]
@@ -191,8 +249,10 @@ def generate_actions(ctx_rng, case, runner):
     def pick(final):
         """index of the next delivery; None = nothing to deliver now (only held copies are queued)"""
         pend = runner.w.pending
-        if late:
-            live = [i for i, d in enumerate(pend) if not d.meta.get("dup")]
+        if hold_burst:
+            release_served()
+        if late or hold_burst:
+            live = [i for i, d in enumerate(pend) if not _held(d)]
             if live and rng.random() >= case.get("release_p", .03):
                 return rng.choice(live) if case.get("reorder", True) else live[0]
             if not live and not final and rng.random() >= case.get("release_p", .03):
@@ -209,6 +269,8 @@ def generate_actions(ctx_rng, case, runner):
             step(["drain"])
             continue
         step(op)
+        if len(op) > 4 and op[4] == "burst":
+            continue                   # the next send follows immediately
         # deliver a random number of queued stanzas in random order (bursts stay queued)
         for _ in range(rng.choice([0, 1, 2, 3, 5, 8, 30])):
             maybe_fault()
@@ -224,6 +286,10 @@ def generate_actions(ctx_rng, case, runner):
         step(["deliver", pick(True)])
         guard += 1
     return acts
+
+
+def _held(d):
+    return bool(d.meta.get("dup") or d.meta.get("hold"))
 
 
 def is_bare_skmsg_node(node):
@@ -505,11 +571,19 @@ def oracle(runner, rec, case):
     restarted = set(a[1] for a in case["actions"] if a[0] == "restart")
     for mid, s in sorted(runner.sends.items()):
         for r in s["recipients"]:
-            if len(delivered.get((r, mid), [])) == 0:
-                bad.append(("not_delivered", "message %d (%s, %d -> %r) never reached account %d" %
-                            (mid, s["kind"], s["from"], s["to"], r), lost_key(runner, rec, case, mid, r)))
             rcpts = [ev for ev in rec.events[s["from"]] if ev["tag"] == "topreceipt" and ev["id"] == mid and
                      ev["peer"] == r and ev["rtype"] == "delivery"]
+            if len(delivered.get((r, mid), [])) == 0:
+                key, why = lost_key(runner, rec, case, mid, r)
+                if key:
+                    runner.kf_claims.append((len(bad), r))
+                if rcpts:
+                    bad.append(("acknowledged_but_never_shown", "message %d (%s, %d -> %r) was never shown to the "
+                                "application of account %d, yet the sender's application got %d's delivery "
+                                "receipt for it%s" % (mid, s["kind"], s["from"], s["to"], r, r, why), key))
+                else:
+                    bad.append(("not_delivered", "message %d (%s, %d -> %r) never reached account %d%s" %
+                                (mid, s["kind"], s["from"], s["to"], r, why), key))
             if len(delivered.get((r, mid), [])) >= 1 and not rcpts:
                 bad.append(("receipt_missing", "sender %d never saw the delivery receipt of %d for message %d" %
                             (s["from"], r, mid), None))
@@ -647,9 +721,15 @@ def dup_while_keyless_shape(runner, rec, idx, mid, total):
 
 
 def lost_key(runner, rec, case, mid, r):
-    """message mid never shown to r although r handled an intact stanza of it carrying a sender-key ciphertext and
-    answered with a plain delivery receipt (the duplicate branch): the sender-key state r uses was created by a
-    LATER distribution message, because the server delivered this sender's group stanzas out of order."""
+    """-> (known-finding key or None, explanation).  The history shape of the OPEN finding
+    group-skmsg-older-than-first-processed-distribution, and nothing wider: message mid was never shown to r although r
+    handled an intact stanza of it carrying a sender-key ciphertext and answered with a plain delivery receipt (the
+    duplicate branch), BECAUSE the chain r uses was started by the FIRST distribution message r processed - at a time
+    it held NO chain for that sender - and that distribution message came from a LATER group message (the server
+    delivered this sender's first group stanzas out of order): its position lies above the lost stanza's iteration.
+    NOT the finding: r already HELD a chain that could read the stanza and lost that position to a distribution
+    message it processed afterwards (C03_redistribution_keeps_position: a re-distribution leaves the chain in use
+    untouched) - a new violation."""
     evs = rec.events[r]
     for i, ev in enumerate(evs):
         if ev["dir"] == "in" and ev["tag"] == "message" and ev["id"] == mid and \
@@ -659,9 +739,33 @@ def lost_key(runner, rec, case, mid, r):
                 if o["dir"] == "in":
                     break
                 outs.append(o["tag"] + ":" + str(o.get("rtype")))
-            if outs == ["receipt:delivery"]:
-                return KF_REORDER
-    return None
+            if outs != ["receipt:delivery"]:
+                continue
+            lost_iter = [t.get("n", 0) for t in ev["encs"] if t["kind"] == "skmsg"][0]
+            # the first distribution message of this sender for this group that r processed, and whether r held a
+            # chain then
+            first = None
+            for j, e2 in enumerate(evs):
+                if e2["dir"] == "in" and e2["tag"] == "message" and e2["group"] == ev["group"] and \
+                        e2["peer"] == ev["peer"]:
+                    pw = [t for t in e2["encs"] if t["kind"] in ("pkmsg", "msg") and not t.get("corrupt") and
+                          not t.get("unknown") and (t.get("pay") or {}).get("skdm")]
+                    if pw:
+                        try:
+                            first = (j, skdm_of(rec, pw[0]["pay"])[1], runner.had_key.get((r, j)))
+                        except Exception:
+                            first = (j, None, runner.had_key.get((r, j)))
+                        break
+            if first is None or first[1] is None:
+                return None, "; account %d acknowledged an intact stanza of it as a duplicate" % r
+            j, pos, had = first
+            if had is False and lost_iter < pos and (j < i or j == i):
+                return KF_REORDER, ""
+            return None, ("; account %d acknowledged an intact stanza of it (iteration %d) as a duplicate although the "
+                          "chain it first obtained for this sender starts at %d%s: it LOST its chain position to a "
+                          "later distribution message" % (r, lost_iter, pos, "" if had is False else
+                                                          " (it already held a chain then)"))
+    return None, ""
 
 
 # ---------------------------------------------------------------------------------------------------
@@ -773,6 +877,65 @@ def late_key_cases():
     return cs
 
 
+def burst_hold_case(rng, tier):
+    """random scripts aimed at a RE-DISTRIBUTION that overtakes queued group stanzas: the addressees hold the
+    sender's key (a first group message was delivered), the sender emits a burst of 2-4 group messages, one
+    sender-key ciphertext of the burst that still has later siblings queued is corrupted, and the server holds those
+    siblings back until the addressee has been shown the corrupted message through the retry exchange (whose answer
+    carries the sender's key again, at its CURRENT position)."""
+    n = rng.choice([2, 3, 3, 4])
+    members = list(range(n)) if (n <= 3 or rng.random() < .6) else sorted(rng.sample(range(n), 3))
+    s = rng.choice(members)
+    others = [m for m in members if m != s]
+    ops = [["send", s, "g0", rng.choice(KINDS)], ["settle"]]
+    if rng.random() < .4:
+        ops += [["send", rng.choice(others), "g0", rng.choice(KINDS)], ["settle"]]
+    nb = rng.randint(2, 4)
+    for k in range(nb):
+        ops.append(["send", s, "g0", rng.choice(KINDS)] + (["burst"] if k < nb - 1 else []))
+    for _ in range(rng.randint(0, 3)):
+        x = rng.random()
+        if x < .5:
+            ops.append(["send", s, "g0", rng.choice(KINDS)])
+        elif x < .8:
+            ops.append(["send", rng.choice(others), "g0", rng.choice(KINDS)])
+        else:
+            a = rng.choice(members)
+            ops.append(["send", a, rng.choice([m for m in range(n) if m != a]), rng.choice(KINDS)])
+    return {"name": "random-burst-hold", "n": n, "groups": [members], "ops": ops, "faults": 1, "fault_p": .6,
+            "hold_burst": True, "release_p": rng.choice([0, 0, .03]), "reorder": rng.random() < .6,
+            "pad_seed": rng.randrange(1 << 30), "entity_seed": rng.randrange(1 << 30)}
+
+
+def redistribution_cases():
+    """DIRECTED: B holds A's sender key (a first group message was delivered); A sends a burst of group messages; the
+    ciphertext of one of them towards B is corrupted; the retry exchange is completed (B's retry receipt reaches
+    A, A's answer - key at A's CURRENT position + content - reaches B) while the LATER burst stanzas are still
+    queued at the server; then they are delivered.  B must keep its chain position: every held stanza is shown."""
+    cs = []
+
+    def script(n, members, a, b, kinds, bad, name):
+        first = 1
+        acts = [["send", a, "g0", "text"], ["drain"]]
+        mids = [first + 1 + k for k in range(len(kinds))]
+        for k, kind in enumerate(kinds):
+            acts.append(["send", a, "g0", kind])
+        acts.append(["until_msgs", b, len(kinds)])
+        later = [m for m in mids if m > mids[bad]]
+        acts += [["corrupt_to", b, mids[bad], 0], ["hold_msgs", b, later], ["drain_hold"], ["drain"],
+                 ["send", a, "g0", "text"], ["drain"]]
+        return {"name": name, "n": n, "groups": [members], "actions": acts}
+    cs.append(script(2, [0, 1], 0, 1, ["text", "text"], 0, "redist-2-text-first"))
+    cs.append(script(2, [0, 1], 0, 1, ["image", "location", "text"], 0, "redist-2-media-first"))
+    cs.append(script(2, [0, 1], 1, 0, ["text", "contact", "url"], 1, "redist-2-middle"))
+    cs.append(script(3, [0, 1, 2], 0, 2, ["text", "image"], 0, "redist-3-first"))
+    cs.append(script(3, [0, 1, 2], 1, 0, ["exttext", "text", "image"], 1, "redist-3-middle"))
+    cs.append(script(4, [0, 1, 2, 3], 0, 3, ["text", "text", "location"], 0, "redist-4-first"))
+    cs.append(script(4, [0, 1, 2, 3], 2, 1, ["image", "text", "text"], 1, "redist-4-middle"))
+    cs.append(script(4, [1, 2, 3], 3, 1, ["url", "text"], 0, "redist-4-subgroup-first"))
+    return cs
+
+
 def scripted_cases():
     cs = []
     # first group MEDIA message to a participant without a session (the repaired media-layer defect)
@@ -815,7 +978,7 @@ def scripted_cases():
     cs.append({"name": "kf-reorder-first-group-messages", "n": 2, "groups": [[0, 1]], "actions":
                [["send", 0, "g0", "text"], ["send", 0, "g0", "text"], ["until_msgs", 1, 2], ["deliver_msg", 1, 2],
                 ["drain"]]})
-    return cs + late_key_cases()
+    return cs + late_key_cases() + redistribution_cases()
 
 
 def prepare(ctx, case, rng):
@@ -842,6 +1005,8 @@ def expand_special(runner, act):
        ["dup_to", idx(, mid)]      duplicate the first queued message stanza addressed to account idx (of message mid)
        ["deliver_msg", idx, mid]   deliver the first queued stanza of message mid addressed to idx
        ["deliver_held"]            deliver the first queued copy made by a `dup`
+       ["corrupt_to", idx, mid, w] corrupt ciphertext w of the first queued stanza of message mid addressed to idx
+       ["hold_msgs", idx, [mids]]  mark the queued stanzas of those messages addressed to idx as held (no action)
     the looping ones (until_msg, until_msgs, until_shown, drain_hold, drain) are expanded in run_case"""
     w = runner.w
     if act[0] == "dup_to":
@@ -860,20 +1025,32 @@ def expand_special(runner, act):
             if d.meta.get("dup"):
                 return ["deliver", i]
         return None
+    if act[0] == "corrupt_to":          # ["corrupt_to", idx, mid, which]
+        for i in w.messages_pending():
+            d = w.pending[i]
+            if d.dst.idx == act[1] and _mid_of(d) == act[2] and not d.meta.get("corrupt"):
+                return ["corrupt", i, act[3] if len(act) > 3 else 0]
+        return None
+    if act[0] == "hold_msgs":           # ["hold_msgs", idx, [mids]]: those queued stanzas stay queued until `drain`
+        for i in w.messages_pending():
+            d = w.pending[i]
+            if d.dst.idx == act[1] and _mid_of(d) in act[2]:
+                d.meta["hold"] = (act[1], 0)
+        return None
     return act
 
 
 def loop_special(runner, act):
     """next explicit action of a looping scripted action, None when its condition is reached:
        ["drain"]                 FIFO until nothing is queued
-       ["drain_hold"]            FIFO, but the copies made by `dup` stay queued
+       ["drain_hold"]            FIFO, but the copies made by `dup` and the stanzas marked by hold_msgs stay queued
        ["until_msg", idx]        FIFO (copies held) until a message stanza for account idx is queued
        ["until_msgs", idx, k]    ... until k of them are
        ["until_shown", idx]      FIFO (copies held) until the application of idx has been shown the newest message
        ["settle"]                = drain (used between the ops of a generated script)"""
     w = runner.w
     k = act[0]
-    live = [i for i, d in enumerate(w.pending) if not d.meta.get("dup")]
+    live = [i for i, d in enumerate(w.pending) if not _held(d)]
     if k in ("drain", "settle"):
         return ["deliver", 0] if w.pending else None
     if not live:
@@ -1030,9 +1207,11 @@ def check_case(ctx, model, case, stats, guard=True):
     wdiffs = compare_world(model, runner, rec, case) if model is not None else []
     for pos, acct in runner.kf_claims:
         if runner.world_differs is None or acct in runner.world_differs:
+            verdicts[pos][1] += ("  [not the listed finding %s: the model of the code as it is shows this account "
+                                 "something else on this history]" % verdicts[pos][2])
             verdicts[pos][2] = None
-            verdicts[pos][1] += ("  [not the listed finding %s: the model of the code as it is does not show this "
-                                 "account the message twice on this history]" % KF_DUP_SKMSG)
+    if not any(v[0] in ("shown_more_than_once", "late_duplicate_shown_again") and v[2] is None for v in verdicts):
+        wdiffs = [d.split("\n diagnosis:")[0] for d in wdiffs]      # the memoised-key hint is about double showings
     for name, detail, key in verdicts:
         found.append(("oracle", name, detail, key))
     for p in rec.problems:
@@ -1053,6 +1232,14 @@ def check_case(ctx, model, case, stats, guard=True):
             io = [norm(o) for o in outs[k]]
             msess = dict((c, list(s)) for c, s in r[1][0] if s)
             rsess = real_state(rec, runner.w.accounts[idx], states[k])
+            rchain = states[k].get("sk_after")
+            mchain = sorted(norm(r[1][3])) if len(r[1]) > 3 else None
+            if rchain is not None and mchain is not None and rchain != mchain:
+                found.append(("correspondence", "chain-position",
+                              "account %d after input #%d %r: sender-key chains held [pairkey(group, sender), position "
+                              "of the chain in use, states stored]\n impl  %r\n model %r" %
+                              (idx, k, ins[k], rchain, mchain), None))
+                break
             if io != mo or msess != rsess:
                 found.append(("correspondence", "account-step",
                               "account %d input #%d %r:\n impl outputs %r sess %r\n model outputs %r sess %r" %
@@ -1099,12 +1286,16 @@ def run(ctx):
     ndirected = len(cases)
     nrand = 120 if ctx.tier == "quick" else 1400
     nlate = 40 if ctx.tier == "quick" else 300
+    nburst = 30 if ctx.tier == "quick" else 250
     late_rng = random.Random(ctx.rng.randrange(1 << 30))
     for k in range(nrand):
         cases.append(random_case(ctx.rng, ctx.tier))
         if k % 3 == 0 and nlate > 0:
             nlate -= 1
             cases.append(retrypath_case(late_rng, ctx.tier))
+        if k % 3 == 1 and nburst > 0:
+            nburst -= 1
+            cases.append(burst_hold_case(late_rng, ctx.tier))
     mism, nontrivial, distinct = 0, 0, set()
     nfaults = {"dup": 0, "corrupt": 0}
     for ci, case in enumerate(cases):
@@ -1177,8 +1368,10 @@ def run(ctx):
              "order, bursts held) + <= 1 fault (duplicate or corrupt one ciphertext); %d directed (incl. %d late-key "
              "histories: a member served through its retry receipt, the duplicate of the original group stanza "
              "delivered afterwards) + seeded random (every third followed by a random late-key script whose "
-             "duplicate is held back); non-trivial = distinct action list with a group send, a fault or a restart"
-             % (ndirected, len(late_key_cases())),
+             "duplicate is held back, every third by a random burst script whose later stanzas are held back across "
+             "the retry exchange of a corrupted earlier one; %d directed re-distribution histories); non-trivial = "
+             "distinct action list with a group send, a fault or a restart"
+             % (ndirected, len(late_key_cases()), len(redistribution_cases())),
         assumptions_text=ASSUME)
 
 
